@@ -24,7 +24,9 @@ RULE = ("per importer (ch.swisscard2, ch.viac, ch.cumulus, ch.postfinance, ch.sw
         "Spec on the binary's output: (a) stdout with `open` directives prepended is accepted by `knut print` and re-printed "
         "byte-identically; (b) the transactions parsed from stdout equal, as a multiset of (date, effect on the import "
         "account, currency), the booking rows the generator wrote down before rendering the file; line structure header/"
-        "one posting/blank.  A second stream damages one row (impossible date, other date format, bad amount, wrong column "
+        "one posting/blank; (c) the extracted statement-level specification Spec/ImpStmtA.v accepts the records "
+        "(<importer>_statement_wf, the hypothesis of C13_<importer>_stdout) and <importer>_statement_output of the records "
+        "(viac: of the decoded values and --from) is byte-identical to the binary's stdout.  A second stream damages one row (impossible date, other date format, bad amount, wrong column "
         "count, bad currency) or the account flag (invalid, empty, omitted): exit 1, empty stdout, no panic is required.  Non-trivial: a well-formed "
         "statement with at least 3 rows; distinct by input.  "
         "Group B (revolut2, revolut, com.wise, ch.swissquote, us.interactivebrokers; generator C13b, Model/Imp/{Revolut2,Revolut,Wise,"
@@ -39,16 +41,19 @@ RULE = ("per importer (ch.swisscard2, ch.viac, ch.cumulus, ch.postfinance, ch.sw
         "prepended, is accepted by `knut print` (which also runs the balance assertions) and re-printed byte-identically; (b) the "
         "multiset of (date, change of the import account per commodity) over the printed transactions equals the generator's own "
         "account of the rows (per expected transaction: a wise conversion row stands for two, a swissquote exchange pair for one), "
-        "the multiset of balance lines equals the balances the statement carries, and nothing else is printed; (c) interactivebrokers: "
-        "the extracted statement-level specification Spec/ImpSpecIB.v accepts the records (ibs_wf) and ibs_statement_output of the "
-        "records is byte-identical to the binary's stdout.  Damaged statements "
+        "the multiset of balance lines equals the balances the statement carries, and nothing else is printed; (c) all five: "
+        "the extracted statement-level specification (Spec/ImpStmtB.v; interactivebrokers: Spec/ImpSpecIB.v) accepts the records "
+        "(<importer>_statement_wf resp. ibs_wf) and <importer>_statement_output resp. ibs_statement_output of the "
+        "records is byte-identical to the binary's stdout; (c) is evaluated whatever (a) and (b) say.  Damaged statements "
         "(date, date format, amount, column count, currency/direction, account flag invalid or omitted) are compared with the model "
         "only.")
 TRUSTED_BASE = [
     "Coq 8.16.1 kernel",
     "extraction (ExtrOcamlBasic only), OCaml 4.13.1, drv_c13a.ml (decoding of the case line, rendering)",
-    "harness c13a.go: statement generators, the generator's own row facts, the regular-expression reader of the printed "
-    "journal, the `knut print` round trip, the subprocess runner",
+    "harness c13a.go: statement generators (what `kind=wf` is attached to), the subprocess runner; for the verdicts print/rows also "
+    "the generator's own row facts, the regular-expression reader of the printed journal and the `knut print` round trip -- these "
+    "row readers are a second opinion now: the verdict `spec` for all six importers is the extracted Coq definition "
+    "<importer>_statement_output (Spec/ImpStmtA.v) compared with stdout byte for byte, and does not depend on them",
     "encoding/csv (Comma, LazyQuotes, TrimLeadingSpace, FieldsPerRecord as set by each importer), encoding/json "
     "(json.Number), utfbom.SkipOnly and charmap.ISO8859_1 are NOT modelled: the model starts from the records/values "
     "those readers delivered, which the harness obtains by running the same reader configuration (c13aReadItems cites "
@@ -56,10 +61,14 @@ TRUSTED_BASE = [
     "Go's time.Parse for the layouts 02.01.2006 and 2006-01-02, strings.TrimSpace/Trim/ReplaceAll/NewReplacer, regexp "
     "`\\d\\d.\\d\\d.\\d\\d\\d\\d` and `\\s+`, fmt.Sprintf/Println and decimal.NewFromString are hand-modelled in "
     "Model/ImpCommonA.v and tied to the code only by this correspondence",
-    "Model/JPrinter.v (journal.Print) as validated by the print correspondence",
-    "group B: drv_c13b.ml; harness c13b.go (statement generators, the generator's facts/assertions/opening holdings, the "
-    "regular-expression reader of transactions, annotations and balance lines, the `knut print` round trip incl. the hand-formatted "
-    "opening transaction); encoding/csv with each importer's configuration (c13bReadItems) is observed, not modelled; Go's "
+    "Model/JPrinter.v (journal.Print) as validated by the print correspondence: the statement-level specifications render the "
+    "prescribed directives with this printer model (print_directives), so the verdict `spec` trusts it (what is printed for a "
+    "given list of directives) but not the importer models Model/Imp/*.v",
+    "group B: drv_c13b.ml; harness c13b.go: statement generators and subprocess runner; its row readers (the generator's "
+    "facts/assertions/opening holdings, the regular-expression reader of transactions, annotations and balance lines, the "
+    "`knut print` round trip incl. the hand-formatted opening transaction) only for the verdicts print/rows, a second opinion: the "
+    "verdict `spec` of all five importers is the extracted <importer>_statement_output (Spec/ImpStmtB.v, Spec/ImpSpecIB.v) compared "
+    "with stdout byte for byte; encoding/csv with each importer's configuration (c13bReadItems) is observed, not modelled; Go's "
     "time.Parse for the layouts `2 Jan 2006`, `January 2, 2006`, `02-01-2006`, strings.Fields/Split/SplitN/NewReplacer, the regular "
     "expressions of revolut and interactivebrokers, decimal.Round and Decimal.String are hand-modelled in Model/ImpCommonB.v, "
     "Model/Imp/*.v, Model/Dec.v and tied to the code only by this correspondence",
@@ -75,12 +84,24 @@ ASSUMPTIONS = [
 ]
 TECHNIQUE = ("Coq proofs over hand-written Gallina models of all eleven importers (per-importer row-to-transaction theorems against "
              "Spec/ImpSpecA.v, Spec/ImpSpecB.v and, for interactivebrokers at statement level, Spec/ImpSpecIB.v) + byte-exact model/implementation correspondence on generated statements + executable "
-             "specification (re-print through knut's own parser, independent row facts) evaluated on the binary's output")
+             "specification evaluated on the binary's output: for all eleven importers the extracted statement-level definition "
+             "<importer>_statement_output (Spec/ImpStmtA.v, Spec/ImpStmtB.v, Spec/ImpSpecIB.v: row readings of the specification + "
+             "posting.Builder + printer, proved to be what the command prints) compared with stdout, plus re-print through knut's own "
+             "parser and the harness' independent row facts as a second opinion")
 LEVEL_TEXT = ("C13_<importer>_faithful and C13_<importer>_end_to_end (Coq): for every list of well-formed rows the importer model emits exactly one "
               "single-booking transaction per booking row, in order, on the row's date, whose effect on the import account is "
               "the row's signed amount in the row's currency (viac: one price per non-zero daily value), and nothing else; "
               "C13_print_balanced, C13_description_verbatim and the byte-level witness C13_quote_breaks_header for the "
-              "shared back half.  Deviations of the code from the property's wording are stated as the relation the code "
+              "shared back half; C13_<importer>_stdout for swisscard2, viac, supercard, swisscard, cumulus and "
+              "C13_postfinance_statement_stdout (Coq): for every list of records that is a well-formed statement "
+              "(<importer>_statement_wf, executable: header records, well-formed rows, for postfinance the key/value-header-rows-"
+              "disclaimer shape cut up by pf_parts, for cumulus the reading of the records as entries by cum_entries) the command "
+              "succeeds and its standard output IS <importer>_statement_output: journal.Print of one transaction per booking row, "
+              "built from the specification's row fact and text as one booking with Expenses:TBD (charge_directive for the card "
+              "statements swisscard2/swisscard, change_directive for postfinance/supercard/cumulus; they fix the printed decimal and "
+              "which way round a zero amount is booked, which `books` leaves open; C13_change_directive_books / C13_charge_directive_books: each books its row fact), resp. of the "
+              "prices (viac, with --from).  "
+              "Deviations of the code from the property's wording are stated as the relation the code "
               "implements and listed as findings.  Group B (Properties/C13b.v): C13b_print_balanced / C13b_journal_balanced (what a group B importer hands to the printer consists of posting pairs), C13_revolut2_faithful (one transaction per completed row, "
               "Amount - Fee; one assertion per day and currency with the last row's Balance), C13_revolut_faithful (one transaction per row, "
               "exchange rows in two commodities; an assertion at every change of date), C13_wise_faithful (zero, one or two transactions per "
@@ -98,8 +119,21 @@ LEVEL_TEXT = ("C13_<importer>_faithful and C13_<importer>_end_to_end (Coq): for 
               "the check evaluates on the binary's output) with the row theorems C13_interactivebrokers_{deposit,dividend,interest,"
               "withholding,stock}_row (one record in any importer state): in each the transactions are dated on the row date, "
               "consist of exactly the row's bookings and change the import account by exactly the row's signed amounts (less fee) in "
-              "every commodity.")
-LEVEL_NOTE = ("Trusted: kernel, extraction, harness, Go's csv/json/charset readers (observed, not modelled). The tie between "
+              "every commodity.  C13_revolut2_stdout, C13_revolut_stdout, C13_wise_stdout, C13_swissquote_stdout (Spec/ImpStmtB.v): "
+              "for every list of records that is a well-formed statement (header record as the importer demands it, well-formed "
+              "rows; revolut: the currency read from the header by rvs_currency; swissquote: sqs_wf) the command with valid account "
+              "flags prints exactly <importer>_statement_output: the transactions booking_directive builds from the specification's "
+              "X_fact / X_legs / X_text (revolut2: of the completed rows, then the assertions of the closing balances r2s_closings "
+              "sorted by day and currency name; revolut: rvs_weave; wise: of ws_entries; swissquote: of sqs_entries) -- no hypothesis "
+              "on the accounts being different is needed for these; C13b_books_determines: a transaction that books a row under the "
+              "row's text is the one booking_directive builds, so the transactions of the _faithful theorems are these.")
+LEVEL_NOTE = ("Trusted: kernel, extraction, the harness' generators and runner, Go's csv/json/charset readers (observed, not modelled), the "
+              "printer model.  The verdict that the output is right is, for all eleven importers, an extracted Coq definition proved "
+              "equal to what the importer model prints (C13_<importer>_stdout), evaluated on every generated well-formed statement "
+              "(all of which satisfy the theorems' hypotheses: none of 1500 further statements per importer, other seeds, fell outside <importer>_statement_wf); the harness' row "
+              "readers remain as a second opinion (they are blind to descriptions, counter accounts and fee accounts: the mutations "
+              "`swisscard2 description fields swapped` and `revolut2 fee booked to Expenses:TBD` pass print and rows and fail spec). "
+              "The tie between "
               "model and code is sampled (quick: 100 well-formed + 34 damaged statements per importer). The parser half of "
               "the round trip is checked on the binary (knut print), not proved (parser model: C07/C09).  Group B: 100 well-formed + "
               "34 damaged statements per importer in the quick tier; for interactivebrokers the statement-level specification is also run: every "
